@@ -58,8 +58,12 @@ Definition set_lat (d : N) (v : Z) (l : list (N * Z)) : list (N * Z) :=
 Definition switch_ok (tol cand cur : Z) : bool :=
   (cand <=? cur)%Z && ((cur <? tol)%Z || (cand <=? cur - tol)%Z).
 
+(* the scan of calcMinLatency / GetMinLatency: an entry is taken when none is chosen yet or it is strictly better *)
+Definition scan_step (acc : Z * option N) (e : N * Z) : Z * option N :=
+  if match snd acc with None => true | Some _ => false end || (snd e <? fst acc)%Z then (snd e, Some (fst e)) else acc.
+
 Definition calc_min (tol : Z) (a : aset) : aset :=
-  let '(ml, md) := fold_left (fun acc e => if (snd e <? fst acc)%Z then (snd e, Some (fst e)) else acc)
+  let '(ml, md) := fold_left scan_step
                              (as_entries a) (HOUR, None) in
   match as_best a with
   | None => {| as_entries := as_entries a; as_best := md; as_best_lat := ml |}
@@ -97,7 +101,7 @@ Definition notify (minp : bool) (tol off : Z) (a : aset) (d : N) (alive : bool) 
       let sorting := (raw + off)%Z in
       let ents := if is_member d (as_entries a1) then set_lat d sorting (as_entries a1) else as_entries a1 in
       let a2 :=
-        if alive && switch_ok tol sorting bak_lat
+        if alive && (optN_eqb bak_best None || switch_ok tol sorting bak_lat)
         then {| as_entries := ents; as_best := Some d; as_best_lat := sorting |}
         else if optN_eqb bak_best (Some d) then
           let a3 := {| as_entries := ents; as_best := bak_best; as_best_lat := sorting |} in
@@ -115,7 +119,7 @@ Definition notify (minp : bool) (tol off : Z) (a : aset) (d : N) (alive : bool) 
       (a2, cb1 ++ cb2)
   | None =>
       if alive && minp && optN_eqb (as_best a1) None
-      then ({| as_entries := as_entries a1; as_best := Some d; as_best_lat := as_best_lat a1 |}, cb1)
+      then ({| as_entries := as_entries a1; as_best := Some d; as_best_lat := as_best_lat a1 |}, cb1 ++ [true])
       else (a1, cb1)
   end.
 
@@ -287,7 +291,7 @@ Definition mark_alive_fallback (cfg : config) (m : mstate) (n : N) (d : dom) (l 
 Definition get_min (a : aset) : option N :=
   match as_best a with
   | Some d => Some d
-  | None => snd (fold_left (fun acc e => if (snd e <? fst acc)%Z then (snd e, Some (fst e)) else acc) (as_entries a) (HOUR, None))
+  | None => snd (fold_left scan_step (as_entries a) (HOUR, None))
   end.
 (* random policy: determined only when the set has at most one entry *)
 Definition get_rand (a : aset) : option N := match as_entries a with [] => None | e :: _ => Some (fst e) end.
